@@ -275,11 +275,11 @@ def run(ctx):
         keys = {"STATUS", "TESTS", "NAME", "GRP"}
         if ctx.thorough:
             runs = [("three", dict(MaxItems=3, MaxDepth=2, KeyPool=keys, ValPool={"w", "one", "fzero", "l01", "lmap", "zblank3", "holo", "null"})),
-                    ("two", dict(MaxItems=2, MaxDepth=1, KeyPool=keys, ValPool={"w", "two", "int", "zero", "one", "fzero", "fone", "t", "f", "l2", "l01", "lmap", "lq", "z1",
+                    ("two", dict(MaxItems=2, MaxDepth=1, KeyPool=keys, ValPool={"w", "two", "int", "zero", "one", "fzero", "fone", "t", "f", "l2", "l01", "lmap", "lq", "z1", "ztab",
                                                                                   "ztrail", "zblank3", "holo", "null", "flow"})),     # (multi-line strings: the Markdown leaf scan reads one line)
                     ("four", dict(MaxItems=4, MaxDepth=3, KeyPool={"STATUS", "NAME", "GRP"}, ValPool={"w"}))]
         else:
-            runs = [("two", dict(MaxItems=2, MaxDepth=1, KeyPool=keys, ValPool={"w", "two", "int", "zero", "one", "fone", "t", "l2", "l01", "lmap", "lq", "z1", "zblank3", "holo", "null", "flow"})),
+            runs = [("two", dict(MaxItems=2, MaxDepth=1, KeyPool=keys, ValPool={"w", "two", "int", "zero", "one", "fone", "t", "l2", "l01", "lmap", "lq", "z1", "zblank3", "ztab", "holo", "null", "flow"})),
                     ("three", dict(MaxItems=3, MaxDepth=2, KeyPool={"STATUS", "NAME", "GRP"}, ValPool={"w"}))]
         cases, seen = [], set()
         for tag, consts in runs:
